@@ -76,7 +76,8 @@ def check(tier: str) -> int:
         for k, w, rep in r["viol"]:
             run.violation(k, w, rep)
     need = {"SetProcessor", "SetParam", "SetSubParam", "DropNode", "DupNode", "SwapNodes", "SetSweep_vals", "SetSweep_val1",
-            "SetSweep_mode", "SetSweep_bc", "SetSweep_const", "SetSweep_noncomm", "SetSweep_el", "SetSweep_oproot", "SetSweep_opinner", "SetSweep_inttype", "SetSweep_vname", "SetSweep_valmid"}
+            "SetSweep_mode", "SetSweep_bc", "SetSweep_const", "SetSweep_noncomm", "SetSweep_el", "SetSweep_oproot", "SetSweep_opinner", "SetSweep_inttype", "SetSweep_vname", "SetSweep_valmid",
+            "SetSweep_rhi", "SetSweep_rlo", "SetSweep_rsteps", "SetSweep_rendp", "SetSweep_rlog"}
     if not need <= set(acts):
         raise core.MachineryError(f"vacuity: semantic actions never exercised: {sorted(need - set(acts))}")
     run.extra["edges_by_action"] = acts
